@@ -402,7 +402,29 @@ def expr_programs(seed, n, cfg, start_id=1, use_ds=True, diff_labels=True):
 # C05: scenarios — which pool registers the script mentions, and in which syntactic position kind
 
 MENTION_KINDS = ["assign_target", "rhs", "sigil", "call_arg", "ds_call", "ds_assign", "jump_cond", "predec",
-                 "times_count", "times_clobber", "alias", "ternary", "while_cond", "compound_assign", "label_cond_time"]
+                 "times_count", "times_clobber", "alias", "ternary", "while_cond", "compound_assign", "label_cond_time",
+                 "nested", "nested", "nested_ds", "nested_dead"]
+
+
+def nest_mention(rng, leaf, is_float, depth, force_ds=False):
+    """the register as a leaf under 1..depth randomly chosen constructors (switch in switch, ternary in switch, ...)"""
+    e = leaf
+    lit = (lambda: flit(rng.choice([1, 3, 5]), 1)) if is_float else (lambda: ilit(rng.choice([1, 2, 3])))
+    for d in range(depth):
+        k = "ds" if force_ds else rng.choice(["ds", "ds", "tern", "bin", "neg"])
+        if k == "ds":
+            n = 4        # one length everywhere: mixed lengths in one statement are rejected by design
+            # the register sits in case 0, which applies on difficulty 0 whatever surrounds it (a *live* mention)
+            cases = [e] + [lit() if rng.random() < 0.5 else {"k": "hole"} for _ in range(n - 1)]
+            e = {"k": "ds", "cases": cases}
+        elif k == "tern":
+            c = binop(rng.choice(["<", "=="]), var(1020), ilit(rng.choice([0, 1])))
+            e = {"k": "tern", "c": c, "a": e, "b": lit()} if rng.random() < 0.5 else {"k": "tern", "c": c, "a": lit(), "b": e}
+        elif k == "bin":
+            e = binop(rng.choice(["+", "-", "*"]), e, lit()) if rng.random() < 0.5 else binop(rng.choice(["+", "*"]), lit(), e)
+        else:
+            e = unop("-", e)
+    return e
 
 
 def mention_stmt(rng, kind, reg, is_float, labels):
@@ -449,6 +471,18 @@ def mention_stmt(rng, kind, reg, is_float, labels):
         return [{"k": "while", "do": False, "cond": binop(">", v, ilit(100)), "body": [call(100, [])]}]
     if kind == "alias":
         return [call(102 if is_float else 101, [{"k": "var", "sig": "", "id": "n:ALIAS%d" % reg}])]
+    if kind == "nested_dead":
+        # the register is mentioned only in a case that can never apply: case 3 of a switch that is itself
+        # case 0 of a fully explicit switch (so the inner switch is only consulted on difficulty 0)
+        lit = (lambda: flit(rng.choice([1, 3, 5]), 1)) if is_float else (lambda: ilit(rng.choice([1, 2, 3])))
+        inner = {"k": "ds", "cases": [lit(), lit(), lit(), binop("+", v, lit())]}
+        e = {"k": "ds", "cases": [inner, lit(), lit(), lit()]}
+        return [call(102 if is_float else 101, [e])]
+    if kind in ("nested", "nested_ds"):
+        e = nest_mention(rng, v, is_float, rng.choice([2, 2, 3]), force_ds=(kind == "nested_ds"))
+        if rng.random() < 0.5:
+            return [call(102 if is_float else 101, [e])]
+        return [{"k": "assign", "var": var(1021) if is_float else other, "op": "=", "value": e}]
     raise ValueError(kind)
 
 
@@ -492,9 +526,12 @@ def regalloc_scenarios(seed, n, start_id=1):
         pool = [(r, False) for r in si] + [(r, True) for r in sf]
         nm = rng.choice([0, 1, 1, 2, 3])
         chunks = []
+        mkinds = {}
         for _ in range(min(nm, len(pool))):
             reg, isf = rng.choice(pool)
-            chunks.append(mention_stmt(rng, rng.choice(MENTION_KINDS), reg, isf, labels))
+            kind = rng.choice(MENTION_KINDS)
+            mkinds.setdefault("r%d" % reg, []).append(kind)
+            chunks.append(mention_stmt(rng, kind, reg, isf, labels))
         for _ in range(rng.choice([1, 2, 3])):
             chunks.append(temp_stmt(rng, rng.choice([1, 2, 2, 3])))
         if "anti" in cfg and rng.random() < 0.7:
@@ -502,7 +539,7 @@ def regalloc_scenarios(seed, n, start_id=1):
         rng.shuffle(chunks)
         for c in chunks:
             body.extend(c)
-        out.append({"id": start_id + i, "cfg": cfg, "vars": [], "body": body})
+        out.append({"id": start_id + i, "cfg": cfg, "vars": [], "body": body, "mention_kinds": mkinds})
     return out
 
 
@@ -572,4 +609,41 @@ def graph_programs(seed, n, cfg, max_slots=8, start_id=1):
     for i in range(n):
         regs = rng.sample(INT_REGS, rng.choice([1, 2, 2]))
         out.append(graph_program(rng, start_id + i, cfg, rng.choice(range(2, max_slots + 1)), regs))
+    return out
+
+
+# ------------------------------------------------------------------------------------------------
+# C02: the "interactions" family — every aliasing pattern between destination, operands and
+# temporaries for `v = A op B` (systematic, independent of the seed)
+
+def interaction_programs(cfg, start_id=1, floats=False):
+    v, w = (1004, 1005) if floats else (1000, 1001)
+    lit = (lambda n: flit(n * 2 + 1, 1)) if floats else ilit
+    V, W = var(v), var(w)
+    simple = [V, W, lit(2)]
+    nonatomic = [binop("+", W, lit(1)), binop("*", V, W), unop("-", V), binop("-", lit(3), V)]
+    switches = [{"k": "ds", "cases": [W, V]}, {"k": "ds", "cases": [V, {"k": "hole"}, W, V]}, {"k": "ds", "cases": [lit(1), V, lit(2), W]}]
+    tern = [{"k": "tern", "c": binop("<", V, W) if not floats else binop("<", var(1000), var(1001)), "a": V, "b": W}]
+    casts = ([unop("float", var(1000)), var(1000, "%")] if floats else [unop("int", var(1004)), var(1004, "$")])
+    operands = simple + nonatomic + switches + tern + casts
+    ops = ["+", "-", "*"]
+    out = []
+    pid = start_id
+    obs = call(102 if floats else 101, [V])
+    obs2 = call(102 if floats else 101, [W])
+    ivars = [{"id": "r%d" % v, "ty": "f" if floats else "i"}, {"id": "r%d" % w, "ty": "f" if floats else "i"}]
+    if floats:
+        ivars.append({"id": "r1000", "ty": "i"})
+    else:
+        ivars.append({"id": "r1004", "ty": "f"})
+    for a in operands:
+        for b in operands:
+            for op in ops:
+                for asg in ("=", "+="):
+                    if asg == "+=" and op != "+":
+                        continue
+                    value = binop(op, a, b) if asg == "=" else binop("*", a, b)
+                    body = [{"k": "assign", "var": V, "op": asg, "value": value}, obs, obs2]
+                    out.append({"id": pid, "cfg": cfg, "vars": ivars, "body": body})
+                    pid += 1
     return out
